@@ -205,10 +205,14 @@ MultiplePredecessors findAllVertexPredecessors(const Graph<EdgeLabel> &graph,
     std::queue<VertexIndex> verticesToProcess({currentVertex});
 
     shortestPaths[currentVertex] = 0;
-    processedVertices[currentVertex] = true;
 
     while (!verticesToProcess.empty()) {
         currentVertex = verticesToProcess.front();
+        // A vertex is enqueued once per predecessor; expand it only once
+        if (processedVertices[currentVertex]) {
+            verticesToProcess.pop();
+            continue;
+        }
 
         for (const VertexIndex &neighbour :
              graph.getOutNeighbours(currentVertex)) {
